@@ -14,14 +14,16 @@ ASSUMPTIONS = [
 ]
 TEXT = ("M DEFINITIONS AUTOMATIC TAGS ::= BEGIN IMPORTS Tb, max-w, Tc FROM Mb depth-c, Td FROM Mc; C ::= CHOICE { a INTEGER, b BOOLEAN, c INTEGER, d Tb, e SEQUENCE { k NULL } } "
         "S ::= SEQUENCE { x INTEGER DEFAULT 5, y C OPTIONAL, z Tc OPTIONAL, u Td OPTIONAL } D ::= CHOICE { p BOOLEAN, q BOOLEAN } v INTEGER ::= 7 w BOOLEAN ::= TRUE END\n"
-        "Mb DEFINITIONS AUTOMATIC TAGS ::= BEGIN Tb ::= NULL max-w INTEGER ::= 9 Tc ::= BOOLEAN END\n"
+        "Mb DEFINITIONS AUTOMATIC TAGS ::= BEGIN Tb ::= NULL max-w INTEGER ::= 9 Tc ::= BOOLEAN Te ::= ENUMERATED { r, g } END\n"
         "Mc DEFINITIONS AUTOMATIC TAGS ::= BEGIN depth-c INTEGER ::= 3 Td ::= BOOLEAN END")
 DEFAULT_ANN = '#[derive(AsnType, Debug, Clone, Decode, Encode, PartialEq, Eq, Hash)]'
 IMPORT_SETS = [[], ['foo::bar'], ['foo::bar', 'baz::*', 'crate::qux::Quux', 'user_defined::ext::Extra', 'useful::X']]     # the last two: paths that merely START with the letters `use`
 ANN_SETS = {'default': [DEFAULT_ANN], 'extra-derive': [DEFAULT_ANN, '#[derive(Default)]'], 'non-derive': [DEFAULT_ANN, '#[non_exhaustive]'],
             'twice': [DEFAULT_ANN, '#[derive(Debug, Clone, PartialOrd)]'], 'empty': [],
             # derives outside the required set listed more than once, adjacent and not adjacent
-            'default-twice': [DEFAULT_ANN, DEFAULT_ANN], 'overlap': ['#[derive(Eq, Hash)]', '#[derive(Serialize, Eq, Hash)]'], 'repeat-in-line': ['#[derive(Eq, Hash, Eq)]']}
+            'default-twice': [DEFAULT_ANN, DEFAULT_ANN], 'overlap': ['#[derive(Eq, Hash)]', '#[derive(Serialize, Eq, Hash)]'], 'repeat-in-line': ['#[derive(Eq, Hash, Eq)]'],
+            # user derives whose names CONTAIN / extend the names of derives the backend manages itself
+            'copy-like': ['#[derive(CopyGetters, DeepCopy)]'], 'name-like': ['#[derive(DebugStub, Cloneable, AsnTypeExt, Encoder, PartialEqual, Dec)]']}
 REQUIRED = ['AsnType', 'Debug', 'Clone', 'Decode', 'Encode', 'PartialEq']
 FLAGS = ['default_wildcard_imports', 'generate_from_impls', 'no_std_compliant_bindings', 'opaque_open_types']
 
@@ -30,7 +32,7 @@ def jobs(tier, seed):
     js = []
     for i, _ in enumerate(IMPORT_SETS):
         for a in ANN_SETS:
-            if tier == 'quick' and i > 0 and a in ('default-twice', 'overlap', 'repeat-in-line'):
+            if tier == 'quick' and i > 0 and a in ('default-twice', 'overlap', 'repeat-in-line', 'copy-like', 'name-like'):
                 continue
             js.append(f"cfg-{i}-{a}")
     return js
@@ -104,14 +106,20 @@ def compare(base, got, flags, imports, ann):
             missing = [x for x in se if x not in sg]
             extra = [x for x in sg if x not in se]
             fails.append(('items', f"module {mod}: missing {missing[:2]} unexpected {extra[:2]}"))
-        # attributes of type items
+        # attributes of type items: the derives the backend needs (incl. Copy exactly where the default configuration has it)
+        # plus the user's, each once
+        base_copy = {}
+        for x in base.get(mod, []):
+            m = re.search(r'pub (?:struct|enum) (\w+)', x)
+            if m and '# [derive' in x:
+                base_copy[m.group(1)] = 'Copy' in (parse_derives(x) or [])
         for x in got.get(mod, []):
             if re.search(r'pub (struct|enum) ', x) and '# [derive' in x:
                 ds = parse_derives(x)
-                want = set(REQUIRED) | set(user_derives)
-                extra_ok = {'Copy'}
-                if sorted(set(ds) - extra_ok) != sorted(want) or len(ds) != len(set(ds)):
-                    fails.append(('derives', f"derives {ds}, expected {sorted(want)} once each"))
+                nm = re.search(r'pub (?:struct|enum) (\w+)', x).group(1)
+                want = set(REQUIRED) | set(user_derives) | ({'Copy'} if base_copy.get(nm) else set())
+                if sorted(set(ds)) != sorted(want) or len(ds) != len(set(ds)):
+                    fails.append(('derives', f"derives {ds} on {nm}, expected {sorted(want)} once each"))
                 for a in non_derive:
                     na = norm(tokproj.safe_str(tokproj.tokenize(a)))
                     if x.count(na) != 1:
